@@ -107,9 +107,13 @@ def var_key(msg_name: str, block_name: str, rvar: refwire.RVar) -> str:
 
 
 class Gen:
-    def __init__(self, seed: int = 0, finite_only: bool = False):
+    def __init__(self, seed: int = 0, finite_only: bool = False, maximal: bool = False):
         self.seed = seed
         self.alpha = alphabets(seed)
+        if maximal:  # maximal-length Variable 2 fields (65535 bytes on the wire)
+            self.alpha["TEXT2"] = self.alpha["TEXT2"] + [("m" * 65534, b"m" * 65534 + b"\x00")]
+            self.alpha["BIN2"] = self.alpha["BIN2"] + [(_pat(65535, seed), _pat(65535, seed))]
+            self.alpha["UNK2"] = self.alpha["UNK2"] + [(_pat(65535, seed), _pat(65535, seed))]
         if finite_only:
             for k in ("F32", "F64"):
                 self.alpha[k] = [p for p in self.alpha[k] if p[0] not in (float("inf"), float("-inf"))]
@@ -158,6 +162,8 @@ class Gen:
         for k in range(self.n_rows(tmpl)):
             h = hv[k % len(hv)]
             yield {"name": name, **h, "blocks": self.blocks(tmpl, k, {}), "tag": f"row{k}"}
+            # the same row with the zero-coding flag flipped: every value (long zero runs included) goes through both encodings
+            yield {"name": name, **dict(h, flags=h["flags"] ^ 0x80), "blocks": self.blocks(tmpl, k, {}), "tag": f"row{k}z"}
 
     def count_variants(self, name: str) -> Iterator[dict]:
         tmpl = self.templates[name]
@@ -175,6 +181,16 @@ class Gen:
         # trailing blocks omitted (keep at least one block)
         for nb in range(1, len(tmpl.blocks)):
             yield {"name": name, **h, "blocks": self.blocks(tmpl, 0, {}, nblocks=nb), "tag": f"prefix{nb}"}
+
+    def count_sweep(self, name: str) -> Iterator[dict]:
+        """Every repeat count 0..255 of each Variable block of one template (others at 1), unencoded."""
+        tmpl = self.templates[name]
+        h = _hdr(0, 1, (), b"")
+        for b in tmpl.blocks:
+            if b.kind != "Variable":
+                continue
+            for c in range(256):
+                yield {"name": name, **h, "blocks": self.blocks(tmpl, 2, {b.name: c}), "tag": f"sweep:{b.name}={c}"}
 
     def header_variants(self, name: str) -> Iterator[dict]:
         tmpl = self.templates[name]
